@@ -171,10 +171,16 @@ def resetStruct (f : Facts) (m : Mode) (fl : Flags) : Flags :=
 
 def keyRank (obs : List String) (k : String) : Nat := obs.idxOf k
 
+/-- insert `k` before the first key whose rank is not smaller (stable) -/
+def insertRank (obs : List String) (k : String) : List String → List String
+  | [] => [k]
+  | x :: xs => if keyRank obs k ≤ keyRank obs x then k :: x :: xs else x :: insertRank obs k xs
+
 /-- visit order of a struct's fields: the declared keys, stably sorted by their position in
-    the observed order — a permutation of the keys for EVERY oracle -/
-def orderOf (obs : List String) (keys : List String) : List String :=
-  keys.mergeSort (fun a b => decide (keyRank obs a ≤ keyRank obs b))
+    the observed order (insertion sort, structural) — a permutation of the keys for EVERY oracle -/
+def orderOf (obs : List String) : List String → List String
+  | [] => []
+  | k :: ks => insertRank obs k (orderOf obs ks)
 
 /-- a child processor: flags of the shared context, path, source tag, input, dest, state -/
 abbrev Child := Flags → List String → Val → DVal → St → Out
